@@ -69,10 +69,15 @@ def run_invalid(rep, names):
     for o in names:
         base = _scn(o, seed=0)
         # no configuration
-        inst = registry.OPTS[o]()
-        ex = expect_rejected(o, 'no-configuration', base, optimizer=inst)
-        if ex.obj['calls'] != 0:
-            bad(o, 'no-configuration', f"{ex.obj['calls']} objective calls before the rejection")
+        try:
+            inst = registry.OPTS[o]()
+        except Exception as e:
+            bad(o, 'no-configuration', f"the optimizer cannot even be constructed without one: {e!r}")
+            inst = None
+        if inst is not None:
+            ex = expect_rejected(o, 'no-configuration', base, optimizer=inst)
+            if ex.obj['calls'] != 0:
+                bad(o, 'no-configuration', f"{ex.obj['calls']} objective calls before the rejection")
         for m in INVALID_MODES:
             expect_rejected(o, f"mode={m!r}", dict(base, mode=m))
         for w in INVALID_WORKERS:
